@@ -36,6 +36,14 @@ UNITS = [
     # C18: the translator is a recursive Transformer over the regex tree that emits labelled leaves, relabels and
     # removes no-ops in place; "the program accepts exactly the language of the pattern" is a statement about an
     # NFA simulation -- outside pyvc's reach.  Bounded: small patterns x short strings on the real translator.
+    # C30: the Python generator returns program text; its run-time meaning is CPython's.  Bounded: a family of values.
+    Native("constants, constant sets and enumerations of the generated Python SDK", ["C30"], "native.c30:bounded",
+           kind="bounded",
+           bound="one meta-model: 14 string constants (quotes, backslashes, NUL, control and line-boundary characters, "
+                 "astral characters, triple quotes), 6 integers up to 10^20, 6 floats, 2 booleans; 3 string sets in a "
+                 "superset_of chain, 1 integer set, 2 sets of enumeration literals (one a superset of the other); 1 "
+                 "enumeration with 10 literal values; 8 texts that are no literal value.  A list of examples",
+           args={}, timeout_s=600),
     Native("small anchored patterns: the VM program against re.fullmatch", ["C18"], "native.c18:bounded", kind="bounded",
            bound="every pattern ^t1 t2$ with <= 2 terms from 14 atoms (chars, escapes, '.', sets, complemented and range "
                  "sets, groups with alternation / nesting / empty alternative) x 11 quantifiers (none * + ? {2} {1,2} "
